@@ -12,6 +12,9 @@ def Cfg.current : Cfg :=
   ⟨Ext4Ref.dirNameLenWide, Ext4Ref.xattrKeepEmpty, Ext4Ref.gateRequiresExtents,
    Ext4Ref.gateRefusesInlineData, Ext4Ref.inodeMinLen⟩
 
+/-- does `extentLeafNode.blocks` refuse unwritten extents in the tree as it is now? -/
+def refuseUnwrittenCurrent : Bool := Ext4Ref.extentRefusesUnwritten
+
 def xattrTable : List (Nat × String) := Ext4Ref.xattrPrefixIdx.zip Ext4Ref.xattrPrefixStr
 
 end Diskfs.Ext4.Reader
